@@ -9,7 +9,6 @@ From V.model Require Import Base RelLex RelParse RelAcc RelGrammar.
 From V.model Require Import RelEdit RelEditSpec RelEditTree RelLive.
 From V.proofs Require Import BaseP RelEditP RelEditStP RelEditHistP RelEditTreeP RelEditReplaceP RelGrammarAccP.
 From V.proofs Require Import RelLiveP RelLiveStepP RelLiveWfP RelLiveNormP.
-Set Default Timeout 60.
 
 Lemma operands_ok_plain o : operands_ok o = true -> operands_plain o = true.
 Proof. destruct o; cbn [operands_ok operands_plain]; intros H; andb_hyps; auto. Qed.
